@@ -1427,6 +1427,10 @@ class Interp:
                         out = rat_map(lambda a_, b_: self.pick(which, a_, b_), out, arr[k])
                     return out
                 return red
+            if name == "flags":
+                # x.flags.writeable = False and friends: no effect on values (a later write to a read-only array is the program's own error)
+                import types as _types
+                return _types.SimpleNamespace(writeable=True, c_contiguous=True, f_contiguous=False, owndata=True)
             raise Unsupported("ndarray.%s" % name)
         if isinstance(v, Rat):
             if name == "real":
@@ -1462,6 +1466,9 @@ class Interp:
                 return
             obj.attrs[name] = v
             return
+        import types as _types
+        if isinstance(obj, _types.SimpleNamespace):
+            return          # ndarray.flags.<x> = ...: no effect on values
         raise Unsupported("attribute store on %s" % type(obj).__name__)
 
     def eval_index(self, node, env):
